@@ -207,4 +207,9 @@ def compare_eval(me, re_, check_steps=True, check_frames=True):
         return "runtime not clean after evaluation: %r" % rest
     if me["pkg"] != rest["pkg"]:
         return "package after evaluation: model %s real %s" % (me["pkg"], rest["pkg"])
+    if "reg" in me and "reg" in rest:
+        mr = {p: (sorted(set(x["exports"])), sorted(x["names"])) for p, x in me["reg"].items()}
+        rr = {p: (sorted(set(x["exports"] or [])), sorted(x["names"] or [])) for p, x in rest["reg"].items()}
+        if mr != rr:
+            return "package registry: model %r real %r" % (mr, rr)
     return None
